@@ -1332,6 +1332,7 @@ func (x *Exec) bodyHasPureCall(n ast.Expr) bool {
 
 var specBuiltinNames = map[string]bool{"forall": true, "exists": true, "implies": true, "iff": true, "old": true, "len": true, "cap": true, "val": true, "has": true,
 	"ite": true, "min": true, "max": true, "abs": true, "content": true, "strof": true, "fresh": true, "isNil": true, "unchanged": true, "gh": true, "pairkey": true,
+	"frameElems": true, "frameMaps": true, "sameSlice": true, "sameArray": true, "held": true, "rheld": true, "allocated": true, "bytesEq": true, "typeIs": true, "forallKeys": true, "existsKeys": true,
 	"int": true, "int64": true, "uint64": true, "uint32": true, "uint16": true, "uint8": true, "uint": true, "int32": true, "byte": true, "mathint": true}
 
 // evalCallerSide evaluates a callee postcondition at a call site; clauses that talk about the callee's local variables
@@ -1812,14 +1813,27 @@ func (e *SpecEnv) builtinSpec(name string, c *ast.CallExpr) (Val, bool) {
 		// frameElems(T): no element of any []T backing array that existed at function entry differs from its value at entry
 		// (only arrays allocated by this activation have been written).  Proved with skolem constants; when assumed right after a
 		// loop-head havoc it becomes a render-time fact on the fresh base arrays.
-		if e.old == nil || len(c.Args) != 1 {
-			sfail("frameElems(T) needs a pre-state and one type argument")
+		// frameElems(T, s): the same, except for the elements of slice s (evaluated in the pre-state: old(s) is meant)
+		if e.old == nil || len(c.Args) < 1 || len(c.Args) > 2 {
+			sfail("frameElems(T [, s]) needs a pre-state and a type argument")
 		}
 		et := e.x.eng.resolveType(e.pkg, c.Args[0])
 		if et == nil {
 			sfail("frameElems: unknown type %s", exprString(c.Args[0]))
 		}
 		x := e.x
+		except := func(a, i string) string { return "false" }
+		if len(c.Args) == 2 {
+			oe := *e
+			oe.st = e.old
+			sl := oe.eval(c.Args[1])
+			if sl.K != KSlice {
+				sfail("frameElems: second argument must be a slice")
+			}
+			except = func(a, i string) string {
+				return sAnd(sEq(a, sl.Arr), sLe(sl.Off, i), sLt(i, sAdd(sl.Off, sl.Len)))
+			}
+		}
 		cur := x.lazyFor(e.st, et).clone()
 		pre := x.lazyFor(e.old, et).clone()
 		cur.d, pre.d = nil, nil // reads happen inside render-time pattern closures: no abbreviations (registry is locked there)
@@ -1830,7 +1844,7 @@ func (e *SpecEnv) builtinSpec(name string, c *ast.CallExpr) (Val, bool) {
 			for k := range now {
 				eqs = append(eqs, sEq(now[k], was[k]))
 			}
-			return sAnd(eqs...)
+			return sOr(except(a, i), sAnd(eqs...))
 		}
 		inner := func(a string) *F {
 			return &F{Op: "forall", Var: "fi", Guard: func(string) string { return "true" }, Body: func(i string) *F { return atom(eqAt(a, i)) }}
@@ -1845,7 +1859,53 @@ func (e *SpecEnv) builtinSpec(name string, c *ast.CallExpr) (Val, bool) {
 				x.decls.PatAdd("sel2:"+cur.base[kk], func(args []string) string {
 					a, i := args[0], args[1]
 					was := pre.read(a, i)
-					return sImp(sAnd(guard, sLt("0", a), sLe(a, alloc0)), sEq(sSel(sSel(cur.base[kk], a), i), was[kk]))
+					return sImp(sAnd(guard, sLt("0", a), sLe(a, alloc0), sNot(except(a, i))), sEq(sSel(sSel(cur.base[kk], a), i), was[kk]))
+				})
+			}
+			return true
+		}
+		return bval(f), true
+	case "frameMaps":
+		// frameMaps(m): every map of m's type that existed at function entry, other than old(m), has its entry content (domain,
+		// values, length).  Proved with a skolem reference; assumed after a loop-head havoc as render-time facts on the fresh bases.
+		if e.old == nil || len(c.Args) != 1 {
+			sfail("frameMaps(m) needs a pre-state and a map argument")
+		}
+		x := e.x
+		oe := *e
+		oe.st = e.old
+		m := oe.eval(c.Args[0])
+		mt, ok := m.T.Underlying().(*types.Map)
+		if !ok {
+			sfail("frameMaps: argument is not a map")
+		}
+		type pair struct{ cur, pre *HArr }
+		var arrs []pair
+		arrs = append(arrs, pair{x.mapDom(e.st, m.T), x.mapDom(e.old, m.T)}, pair{x.mapLenArr(e.st, m.T), x.mapLenArr(e.old, m.T)})
+		for _, cc := range comps(mt.Elem()) {
+			arrs = append(arrs, pair{x.mapValArr(e.st, m.T, cc), x.mapValArr(e.old, m.T, cc)})
+		}
+		// snapshots (update lists are append-only slices)
+		for i := range arrs {
+			c1, p1 := *arrs[i].cur, *arrs[i].pre
+			c1.ups, p1.ups = c1.ups[:len(c1.ups):len(c1.ups)], p1.ups[:len(p1.ups):len(p1.ups)]
+			arrs[i] = pair{&c1, &p1}
+		}
+		alloc0 := x.alloc0
+		f := &F{Op: "forall", Var: "fm", Guard: func(r string) string { return sAnd(sLe(r, alloc0), sNot(sEq(r, m.S))) }, Body: func(r string) *F {
+			var eqs []string
+			for _, a := range arrs {
+				eqs = append(eqs, sEq(a.cur.read(r), a.pre.read(r)))
+			}
+			return atom(sAnd(eqs...))
+		}}
+		f.OnAssume = func(st *State, guard string) bool {
+			for _, a := range arrs {
+				aa := a
+				// keyed on the base array: reads of the current content at r go through the update list down to (select base r)
+				x.decls.PatAdd("sel1:"+aa.cur.base, func(args []string) string {
+					r := args[0]
+					return sImp(sAnd(guard, sLe(r, alloc0), sNot(sEq(r, m.S))), sEq(aa.cur.read(r), aa.pre.read(r)))
 				})
 			}
 			return true
